@@ -26,12 +26,19 @@ namespace au {
 // Check that this particular Magnitude won't cause this specific value to overflow its type.
 template <typename Rep, typename... BPs>
 constexpr bool can_scale_without_overflow(Magnitude<BPs...> m, Rep value) {
+    // Use the non-asserting `get_value_result`, so that merely _asking_ this question (say, during
+    // overload resolution) is never a hard error, even for magnitudes that no type can hold.
+    constexpr auto as_double = detail::get_value_result<double>(m);
+    constexpr auto as_rep = detail::get_value_result<Rep>(m);
+
     // Scales that shrink don't cause overflow.
-    if (get_value<double>(m) <= 1.0) {
+    if (as_double.outcome == detail::MagRepresentationOutcome::OK && as_double.value <= 1.0) {
         (void)value;
         return true;
     } else {
-        return std::numeric_limits<Rep>::max() / get_value<Rep>(m) >= value;
+        // A magnitude that doesn't fit in `Rep` overflows every nonzero value.
+        return as_rep.outcome == detail::MagRepresentationOutcome::OK &&
+               std::numeric_limits<Rep>::max() / as_rep.value >= value;
     }
 }
 
